@@ -132,7 +132,12 @@ fn zone_workload(l: &mut Local, rng: &mut Rng, ctx: &Ctx) {
                 if let Ok(c) = facade::dt_from_total_ns_and_local(total, *a.local_time_type()) {
                     n += 1;
                     if !crate::mon::c05::same_dt(&a, &c) {
-                        l.violation("zoned date-time: from_total_nanoseconds_and_local differs from from_timespec(.., zone) for the same instant and type", format!("total {} on {}", total, z1.describe()), facade::fmt_dt(&a), facade::fmt_dt(&c));
+                        l.violation(
+                            "zoned date-time: from_total_nanoseconds_and_local differs from from_timespec(.., zone) for the same instant and type",
+                            format!("total {} on {}", total, z1.describe()),
+                            facade::fmt_dt(&a),
+                            facade::fmt_dt(&c),
+                        );
                     }
                 }
             }
@@ -224,6 +229,7 @@ pub fn run(ctx: &Ctx) -> Report {
         "zone_constructors_agree_on_negative_fractional_instants",
         "zone_constructors_agree_on_negative_whole_seconds",
         "search_at_range_end_found",
+        "search_at_range_end_rule_governs_the_whole_range",
         "search_at_range_end_refused",
         "search_at_range_end_second_60",
     ];
@@ -248,7 +254,11 @@ pub fn run(ctx: &Ctx) -> Report {
         l.op_n("DateTime::new", n);
         l.distinct_enumerated += n;
         if i == 100 {
-            l.sample(|| Json::obj().set("call", "DateTime::new(2024, 2, 29, 23, 59, 60, 7, offset 3600)").set("observed", format!("{:?}", facade::dt_new(2024, 2, 29, 23, 59, 60, 7, LocalTimeType::with_ut_offset(3600).unwrap()).map(|d| facade::fmt_dt(&d)))));
+            l.sample(|| {
+                Json::obj()
+                    .set("call", "DateTime::new(2024, 2, 29, 23, 59, 60, 7, offset 3600)")
+                    .set("observed", format!("{:?}", facade::dt_new(2024, 2, 29, 23, 59, 60, 7, LocalTimeType::with_ut_offset(3600).unwrap()).map(|d| facade::fmt_dt(&d))))
+            });
         }
     });
     // wl 2: the range edge: first / last representable seconds seen through offsets of both signs
@@ -312,7 +322,12 @@ pub fn run(ctx: &Ctx) -> Report {
                     }
                 }
                 (Err(_), Err(_)) => {}
-                (a, b) => l.violation("zoned date-time: the two timestamp constructors accept differently", format!("total {} offset {}", total, off), format!("{:?}", a.as_ref().map(facade::fmt_dt)), format!("{:?}", b.as_ref().map(facade::fmt_dt))),
+                (a, b) => l.violation(
+                    "zoned date-time: the two timestamp constructors accept differently",
+                    format!("total {} offset {}", total, off),
+                    format!("{:?}", a.as_ref().map(facade::fmt_dt)),
+                    format!("{:?}", b.as_ref().map(facade::fmt_dt)),
+                ),
             }
             l.distinct_hash(Fnv::new().i(u).i(off as i64).i(ns as i64).get());
         }
@@ -352,7 +367,12 @@ pub fn run(ctx: &Ctx) -> Report {
                             // same fields + same type through the field constructor: same instant
                             if let Ok(built) = facade::dt_new(d.year(), d.month(), d.month_day(), d.hour(), d.minute(), d.second(), d.nanoseconds(), *d.local_time_type()) {
                                 if built.unix_time() != d.unix_time() {
-                                    l.violation("zoned date-time: a search result and DateTime::new of the same fields and type denote different instants", format!("DateTime::find({}) on {}", q.describe(), z.describe()), facade::fmt_dt(&built), facade::fmt_dt(&d));
+                                    l.violation(
+                                        "zoned date-time: a search result and DateTime::new of the same fields and type denote different instants",
+                                        format!("DateTime::find({}) on {}", q.describe(), z.describe()),
+                                        facade::fmt_dt(&built),
+                                        facade::fmt_dt(&d),
+                                    );
                                 }
                             }
                         }
@@ -386,8 +406,16 @@ pub fn run(ctx: &Ctx) -> Report {
             let (a, b) = (pick_off(rng), pick_off(rng));
             let ta = LocalTimeType::new(a, false, Some(b"AAA")).unwrap();
             let tb = LocalTimeType::new(b, true, Some(b"BBB")).unwrap();
-            let with_rule = rng.chance(1, 2);
-            let zone = match TimeZone::new(vec![Transition::new(0, 1)], vec![ta, tb], vec![], if with_rule { Some(TransitionRule::Fixed(tb)) } else { None }) {
+            // shape 0: transition at 0; shape 1: no table, the fixed rule alone; shape 2: the last transition lies below
+            // the supported range, so that the rule governs all of it (type B is under test at both ends then)
+            let shape = rng.below(3);
+            let with_rule = shape != 0 || rng.chance(1, 2);
+            let built = match shape {
+                0 => TimeZone::new(vec![Transition::new(0, 1)], vec![ta, tb], vec![], if with_rule { Some(TransitionRule::Fixed(tb)) } else { None }),
+                1 => TimeZone::new(vec![], vec![tb], vec![], Some(TransitionRule::Fixed(tb))),
+                _ => TimeZone::new(vec![Transition::new(cal::min_unix() - rng.range(1, 1_000_000), 1)], vec![ta, tb], vec![], Some(TransitionRule::Fixed(tb))),
+            };
+            let zone = match built {
                 Ok(z) => z,
                 Err(_) => continue,
             };
@@ -395,7 +423,16 @@ pub fn run(ctx: &Ctx) -> Report {
             if !low && !with_rule {
                 continue; // after the last transition of a rule-less zone there is no type: nothing to search
             }
-            let (edge, off, ltt) = if low { (cal::min_unix(), a, ta) } else { (cal::max_unix(), b, tb) };
+            let (edge, off, ltt) = if low && shape == 0 {
+                (cal::min_unix(), a, ta)
+            } else if low {
+                (cal::min_unix(), b, tb)
+            } else {
+                (cal::max_unix(), b, tb)
+            };
+            if shape != 0 {
+                l.class("search_at_range_end_rule_governs_the_whole_range");
+            }
             let naive = edge as i128 + off as i128 + rng.range(-3, 3) as i128;
             if naive < cal::min_unix() as i128 || naive > cal::max_unix() as i128 + 1 {
                 continue; // the fields themselves are not a date of the calendar range
@@ -410,14 +447,28 @@ pub fn run(ctx: &Ctx) -> Report {
             let want = facade::dt_new(c.year as i32, c.month, c.day, c.hour, c.minute, sec, ns, ltt);
             let got = facade::find(c.year as i32, c.month, c.day, c.hour, c.minute, sec, ns, zone.as_ref());
             n += 2;
-            let input = || format!("DateTime::find({}-{:02}-{:02}T{:02}:{:02}:{:02}) on [0 -> BBB({}s)], first type AAA({}s), rule {}", c.year, c.month, c.day, c.hour, c.minute, sec, b, a, if with_rule { "Fixed(BBB)" } else { "none" });
+            let input = || {
+                format!(
+                    "DateTime::find({}-{:02}-{:02}T{:02}:{:02}:{:02}) on zone shape {} [transition -> BBB({}s)], first type AAA({}s), rule {}",
+                    c.year,
+                    c.month,
+                    c.day,
+                    c.hour,
+                    c.minute,
+                    sec,
+                    shape,
+                    b,
+                    a,
+                    if with_rule { "Fixed(BBB)" } else { "none" }
+                )
+            };
             // the other type's reading is far away from the range end unless the offsets are close: only judge the
             // entry of the type under test, and every returned entry's range
             match (&want, &got) {
                 (Ok(w), Ok(list)) => {
                     let entries = list.clone().into_inner();
                     let hit = entries.iter().any(|k| matches!(k, tz::datetime::FoundDateTimeKind::Normal(d) if d.unix_time() == w.unix_time() && d.local_time_type() == w.local_time_type()));
-                    let expected_here = if low { w.unix_time() < 0 } else { w.unix_time() >= 0 };
+                    let expected_here = shape != 0 || if low { w.unix_time() < 0 } else { w.unix_time() >= 0 };
                     if expected_here && !hit {
                         l.violation("zoned date-time: a local time at the end of the supported range is not found although DateTime::new accepts it", input(), facade::fmt_dt(w), format!("{} entries", entries.len()));
                     }
@@ -437,7 +488,17 @@ pub fn run(ctx: &Ctx) -> Report {
                 }
                 (Ok(w), Err(e)) => {
                     // refused although the value exists: allowed only when the *other* type's reading leaves the range
-                    let other = if low { b } else { a };
+                    let other = match shape {
+                        0 => {
+                            if low {
+                                b
+                            } else {
+                                a
+                            }
+                        }
+                        1 => b,
+                        _ => a,
+                    };
                     let u_other = naive - other as i128 - if sec60 { 0 } else { 0 };
                     let other_in_range = u_other >= cal::min_unix() as i128 && u_other <= cal::max_unix() as i128;
                     if other_in_range {
@@ -476,7 +537,12 @@ pub fn run(ctx: &Ctx) -> Report {
             n += 1;
             let u = leap.unix_time();
             if u != local_minute + 60 - off as i64 {
-                l.violation("zoned date-time: second 60 is not the first second of the next minute", format!("DateTime::new({}-{}-{} {}:{}:60 offset {})", c.year, c.month, c.day, c.hour, c.minute, off), format!("unix_time {}", local_minute + 60 - off as i64), facade::fmt_dt(&leap));
+                l.violation(
+                    "zoned date-time: second 60 is not the first second of the next minute",
+                    format!("DateTime::new({}-{}-{} {}:{}:60 offset {})", c.year, c.month, c.day, c.hour, c.minute, off),
+                    format!("unix_time {}", local_minute + 60 - off as i64),
+                    facade::fmt_dt(&leap),
+                );
             }
             let nx = cal::civil_from_unix(local_minute + 60);
             if let Ok(plain) = facade::dt_new(nx.year as i32, nx.month, nx.day, nx.hour, nx.minute, 0, ns, ltt) {
